@@ -692,7 +692,6 @@ func c16Extra(c *Ctx) {
 	pk := p.Pkg("private/bufpkg/bufconfig")
 	info := pk.TypesInfo
 	c.Rule("STABLE-ORDER", "module configs that share a path keep their file order (stable sort)", 1)
-	c.Rule("ISEMPTY-COVERS", "isEmpty of an external section looks at every field of the section", 3)
 	c.Rule("MIGRATE-REBASE", "every module directory written by the migration is re-based onto the destination directory", 3)
 	if fr := p.Func("private/bufpkg/bufconfig", "newBufYAMLFile"); fr != nil {
 		stable, other := 0, ""
@@ -718,6 +717,39 @@ func c16Extra(c *Ctx) {
 		})
 		c.Ob("STABLE-ORDER", "newBufYAMLFile/module-configs", fr.Decl.Pos(), stable > 0 && other == "", true, "module configs are ordered by DirPath with a stable sort (%d) and no unstable one (%s): equal paths keep their order", stable, other)
 	}
+	ruleIsEmptyCovers(c, "ISEMPTY-COVERS")
+	if pkM := p.Pkg("private/buf/bufmigrate"); pkM != nil {
+		sites := 0
+		for _, sf := range p.SSAFuncsOf([]*packages.Package{pkM}) {
+			for _, f := range allSSAFuncs(sf) {
+				for _, call := range callsIn(f) {
+					if !calleeIs(staticCalleeObj(call.Call), "private/bufpkg/bufconfig", "NewModuleConfig") {
+						continue
+					}
+					sites++
+					ok := dependsOnCall(call.Call.Args[0], func(cc *ssa.CallCommon) bool { return calleeIs(staticCalleeObj(cc), "private/pkg/normalpath", "Rel") })
+					c.Ob("MIGRATE-REBASE", ssaFuncName(f)+"/NewModuleConfig", call.Pos(), ok, true, "the module directory derives from normalpath.Rel(destination, …) like at the sibling sites: %v", ok)
+				}
+			}
+		}
+		if sites < 3 {
+			c.Fail("MIGRATE-REBASE", "count", token.NoPos, "only %d NewModuleConfig sites in bufmigrate", sites)
+		}
+	}
+}
+
+// ruleIsEmptyCovers (ISEMPTY-COVERS; C16, and C06 because `disallow_comment_ignores` lives in such a section): a
+// module-level section that isEmpty() calls empty is dropped in favour of the top-level / default one; an isEmpty that
+// forgets a field makes a section holding only that field vanish.
+func ruleIsEmptyCovers(c *Ctx, rule string) {
+	c.Rule(rule, "isEmpty of an external section looks at every field of the section", 3)
+	p := c.P
+	pk := p.Pkg("private/bufpkg/bufconfig")
+	if pk == nil {
+		c.Fail(rule, "anchor", token.NoPos, "bufconfig not found")
+		return
+	}
+	info := pk.TypesInfo
 	n := 0
 	for _, fr := range p.FuncsOf(pk) {
 		if fr.Decl.Name.Name != "isEmpty" || fr.Decl.Recv == nil {
@@ -736,27 +768,9 @@ func c16Extra(c *Ctx) {
 				missing = append(missing, f.Name())
 			}
 		}
-		c.Ob("ISEMPTY-COVERS", namedName(recvT)+".isEmpty", fr.Decl.Pos(), len(missing) == 0, true, "fields not examined: %v (a section holding only such a field would be treated as absent)", missing)
+		c.Ob(rule, namedName(recvT)+".isEmpty", fr.Decl.Pos(), len(missing) == 0, true, "fields not examined: %v (a section holding only such a field would be treated as absent)", missing)
 	}
 	if n < 3 {
-		c.Fail("ISEMPTY-COVERS", "count", token.NoPos, "only %d isEmpty methods", n)
-	}
-	if pkM := p.Pkg("private/buf/bufmigrate"); pkM != nil {
-		sites := 0
-		for _, sf := range p.SSAFuncsOf([]*packages.Package{pkM}) {
-			for _, f := range allSSAFuncs(sf) {
-				for _, call := range callsIn(f) {
-					if !calleeIs(staticCalleeObj(call.Call), "private/bufpkg/bufconfig", "NewModuleConfig") {
-						continue
-					}
-					sites++
-					ok := dependsOnCall(call.Call.Args[0], func(cc *ssa.CallCommon) bool { return calleeIs(staticCalleeObj(cc), "private/pkg/normalpath", "Rel") })
-					c.Ob("MIGRATE-REBASE", ssaFuncName(f)+"/NewModuleConfig", call.Pos(), ok, true, "the module directory derives from normalpath.Rel(destination, …) like at the sibling sites: %v", ok)
-				}
-			}
-		}
-		if sites < 3 {
-			c.Fail("MIGRATE-REBASE", "count", token.NoPos, "only %d NewModuleConfig sites in bufmigrate", sites)
-		}
+		c.Fail(rule, "count", token.NoPos, "only %d isEmpty methods", n)
 	}
 }
